@@ -8,6 +8,9 @@ scalar Bulirsch loops of special_cel.py in exact arithmetic with an explicit ite
 every input (`bhjmCircle_terminates`: the wrapper's masks cover the set where the loop would not
 exit, `circle_masks_cover_singular`); positivity of every divisor along the `cel_iter0` loop;
 termination of the batch loop `cel_iterv` and of the dispatcher `cel_iter` (`celIterV_terminates`).
+Cylinder (Model/Cylinder.lean): the near-axis Taylor branch divides by positive numbers only
+(`cylinder_axis_branch_defined`); every `cel0` call of both kernels has a non-zero modulus off the masked
+edge and `BHJM_magnet_cylinder` returns for every input with positive diameter (`cylinder_terminates`).
 /- FULL: all classes, IEEE double, termination of the el3 iterations and of the vectorised `celv`
    (per entry the `cel0` loop run at least once, no `kc == 0` guard; not modelled).  Not representable in
    exact real arithmetic: overflow/underflow (r**5 for r < 1e-65, sizes 1e9), NaN from inf−inf,
@@ -19,6 +22,7 @@ import MagpyVerif.Lemmas.KernReal
 import MagpyVerif.Lemmas.KernelLiterals
 import MagpyVerif.Lemmas.SegmentBS
 import MagpyVerif.Lemmas.CelAGM
+import MagpyVerif.Lemmas.KernCylinder
 namespace MagpyVerif.C15
 open MagpyVerif MagpyVerif.Kern
 
@@ -277,5 +281,54 @@ example : cel0 5 (0 : ℝ) 1 1 1 = none := (cel0_none_iff 0 1 1 1 5 (by simp [ce
 theorem cel0_fuel_irrelevant (n k : ℕ) (kc p c s v : ℝ) (h : cel0 n kc p c s = some v) :
     cel0 (n + k) kc p c s = some v :=
   cel0_fuel_mono n k kc p c s v h
+
+/-! ### Cylinder: the near-axis branch -/
+
+/-- C15 (Cylinder): for `r/r0 < 0.05` (observers on and near the axis, where the general diametral
+formula divides by `r²`) `magnet_cylinder_diametral_Hfield` takes its Taylor branch: no elliptic
+integral is evaluated (the model returns a value for every fuel, also 0) and every divisor of the
+branch — `zpp = (z+z0)²+1`, `zmm = (z−z0)²+1`, their square roots and their powers up to the fifth,
+besides the constants 4, 8, 64 — is positive, for every `z0`, `z`, `phi` and every `r` (also `r = 0`) -/
+theorem cylinder_axis_branch_defined (fuel : Nat) (z0 r z phi : ℝ) (hr : r < 5 / 100) :
+    cylDiametralH fuel z0 r z phi = some (cylDiametralSmallR z0 r z phi) ∧
+    (let zpp := (z + z0) * (z + z0) + 1
+     let zmm := (z - z0) * (z - z0) + 1
+     0 < zpp ∧ 0 < zmm ∧ 0 < Real.sqrt zpp ∧ 0 < Real.sqrt zmm ∧
+     0 < zpp * zpp ∧ 0 < zmm * zmm ∧ 0 < zpp * zpp * zpp ∧ 0 < zmm * zmm * zmm ∧
+     0 < zpp * zpp * zpp * zpp ∧ 0 < zmm * zmm * zmm * zmm ∧
+     0 < zpp * zpp * zpp * zpp * zpp ∧ 0 < zmm * zmm * zmm * zmm * zmm) := by
+  obtain ⟨h1, h2, h3, h4⟩ := cylSmallR_divisors z0 z
+  refine ⟨?_, h1, h2, h3, h4, ?_, ?_, ?_, ?_, ?_, ?_, ?_, ?_⟩
+  · have : r < (5 : ℝ) / 100 := hr
+    simp only [cylDiametralH, lt_real, n, ofNat_real, Nat.cast_ofNat, this, decide_true, if_true]
+  all_goals positivity
+
+-- non-vacuity: exactly on the axis
+example : cylDiametralH 0 (1 : ℝ) 0 2 0 = some (cylDiametralSmallR 1 0 2 0) :=
+  (cylinder_axis_branch_defined 0 1 0 2 0 (by norm_num)).1
+
+/-- C15 (Cylinder): the geometric edge `r = r0 ∧ |z| = h/2` — the only observers where a modulus
+`k1` / `k0` of the axial kernel vanishes, i.e. where `cel0` would `raise RuntimeError("FAIL")` — lies
+inside the wrapper's on-edge mask (`np.isclose` accepts exact equality), so those rows never reach
+the kernels; off that set both moduli are non-zero (for `r ≥ 0`), and the moduli `sqrt(1 − argp)`,
+`sqrt(1 − argm)` of the diametral kernel are non-zero for every `r ≥ 0` -/
+theorem cylinder_edge_mask_covers_singular (z0 r z : ℝ) (hr : 0 ≤ r) :
+    (r = 1 → |z| = z0 → (cylMasks z0 r z).onEdge = true) ∧
+    (¬ (z + z0 = 0 ∧ r = 1) → cylK (z + z0) r ≠ 0) ∧ (¬ (z - z0 = 0 ∧ r = 1) → cylK (z - z0) r ≠ 0) ∧
+    cylKd (z + z0) r ≠ 0 ∧ cylKd (z - z0) r ≠ 0 :=
+  ⟨cylMasks_onEdge_of_eq z0 r z, cylK_ne_zero _ r hr, cylK_ne_zero _ r hr, cylKd_ne_zero _ r hr, cylKd_ne_zero _ r hr⟩
+
+/-- C15 (Cylinder): `BHJM_magnet_cylinder` for one row returns a value for every field, every
+polarization and every observer — inside, outside, on hull, bases, edge and axis — of every cylinder
+with positive diameter and non-negative height, in exact arithmetic: each of the up to ten `cel0`
+calls has a non-zero modulus (the rows where it would vanish are masked, see above) and its
+`while` loop exits; the model returns a value for every fuel ≥ `cylFuelX d h x`
+(the largest `celFuel1 |kc| 1e-6` over the four moduli) -/
+theorem cylinder_terminates (f : Field) (d h : ℝ) (pol x : V3 ℝ) (hd : 0 < d) (hh : 0 ≤ h) (fuel : ℕ)
+    (hfuel : cylFuelX d h x ≤ fuel) : (bhjmCylinder fuel f (d, h) pol x).isSome :=
+  bhjmCylinder_isSome fuel f d h pol x hd hh hfuel
+
+example : (bhjmCylinder (cylFuelX 2 3 ⟨3, 4, 1⟩) .B ((2 : ℝ), 3) ⟨1, 2, 3⟩ ⟨3, 4, 1⟩).isSome :=
+  cylinder_terminates .B 2 3 _ _ (by norm_num) (by norm_num) _ le_rfl
 
 end MagpyVerif.C15
